@@ -77,6 +77,12 @@ class Comm:
         self.shared = shared if shared is not None else world.comms.setdefault(name, _Shared())
         self.count = 0
 
+    def __reduce__(self):
+        # like MPI.COMM_WORLD, the world communicator unpickles to the world communicator of the receiving rank
+        if self.name != "world":
+            raise pickle.PicklingError("only the world communicator can be sent to another rank")
+        return (_current_world_comm, ())
+
     # -- basics
     def Get_rank(self):
         return self.rank
@@ -171,8 +177,19 @@ UNDEFINED = -32766
 COMM_NULL = None
 
 
+def _current_world_comm():
+    return _local.comm
+
+
+def _world_proxy():
+    return sys.modules["mpi4py.MPI"].COMM_WORLD
+
+
 class _WorldProxy:
     """MPI.COMM_WORLD: dispatches to the communicator of the rank that runs on the calling thread"""
+
+    def __reduce__(self):
+        return (_world_proxy, ())
 
     def __getattr__(self, name):
         comm = getattr(_local, "comm", None)
